@@ -9,9 +9,12 @@ vars == <<kind, series, exper, emitted>>
 
 Gens == [solved : BOOLEAN, fit : Fits, age : {1, 4}, div : Divs]
 \* the remaining fields are tied to the free ones to keep the scope small
-Fill(g) == IF g.solved THEN [solved |-> TRUE, fit |-> g.fit, age |-> g.age, div |-> g.div, cplx |-> 5 + g.age,
+\* the diversity (number of species) also varies with the age bit, so that the species counts of a trial do not always sum
+\* to a multiple of its number of generations
+DivOf(g) == g.div + (IF g.age = 4 THEN 1 ELSE 0)
+Fill(g) == IF g.solved THEN [solved |-> TRUE, fit |-> g.fit, age |-> g.age, div |-> DivOf(g), cplx |-> 5 + g.age,
                              wn |-> 4 + g.fit, wg |-> g.age, we |-> 10 * g.div + g.fit + 2]
-           ELSE [solved |-> FALSE, fit |-> g.fit, age |-> g.age, div |-> g.div, cplx |-> 6 + g.fit, wn |-> 0, wg |-> 0, we |-> 0]
+           ELSE [solved |-> FALSE, fit |-> g.fit, age |-> g.age, div |-> DivOf(g), cplx |-> 6 + g.fit, wn |-> 0, wg |-> 0, we |-> 0]
 TrialsSet == UNION { [1..n -> Gens] : n \in 0..MaxGens }
 Init == \/ /\ kind = "empty" /\ series = <<>> /\ exper = <<>> /\ emitted = FALSE
         \/ /\ kind = "series" /\ series \in UNION { [1..n -> Vals] : n \in 1..MaxLen } /\ exper = <<>> /\ emitted = FALSE
@@ -34,6 +37,6 @@ ExperLaws == kind = "exper" =>
     LET a == ExpAgg(exper) IN
     /\ a.solved_count <= a.trials
     /\ a.solved <=> (a.solved_count > 0)
-    /\ \A i \in DOMAIN exper : a.per_trial[i].solved => a.per_trial[i].winner[4] \in Divs
+    /\ \A i \in DOMAIN exper : a.per_trial[i].solved => a.per_trial[i].winner[4] \in Divs \cup { d + 1 : d \in Divs }
     /\ ExperPermutationInvariant(exper)
 =============================================================================
